@@ -44,6 +44,20 @@ pub struct Case {
     pub threads: usize,
     pub mem: CovMem,
     pub delim: String,
+    /// (record index, minimum length): that record is repeated to this length (multiplicities beyond 65535)
+    #[serde(default)]
+    pub stretch: Option<(u16, usize)>,
+}
+
+fn materialise(c: &Case) -> Vec<Rec> {
+    let mut recs = c.recs.clone();
+    if let Some((i, min_len)) = c.stretch {
+        if !recs.is_empty() {
+            let idx = crate::util::idx16(i, recs.len());
+            recs[idx].seq = crate::util::Bytes(super::c01::stretched(&recs[idx].seq, min_len));
+        }
+    }
+    recs
 }
 
 pub struct CovOut {
@@ -108,8 +122,10 @@ pub fn check_vectors(data: &[u8], recs: &[Rec], counting: &[Rec], k: usize, bin_
     Ok((saturated, multi_bin))
 }
 
-pub fn check_case(c: &Case) -> Verdict {
+pub fn check_case(c0: &Case) -> Verdict {
     let mut v = Verdict::new();
+    let c = &Case { recs: materialise(c0), ..c0.clone() };
+    v.class_if(c.recs.iter().any(|r| r.seq.0.len() > 65536), "record>65536");
     let dir = crate::scratch_dir();
     let input = io::write_input(dir.path(), "in", &c.recs, &c.cont);
     let alt_path = c.alt.as_ref().map(|a| io::write_input(dir.path(), "alt", a, &Container::plain_fasta()));
@@ -180,7 +196,7 @@ impl Leg for Runs {
                 } else {
                     Just(None).boxed()
                 };
-                (gen::records_mixed_in_container(p), alt).prop_map(move |((recs, cont), alt)| {
+                (gen::records_mixed_in_container(p), alt, prop_oneof![60 => Just(None), 2 => (any::<u16>(), Just(3_000usize)).prop_map(Some), 1 => (any::<u16>(), Just(140_000usize)).prop_map(Some)]).prop_map(move |((recs, cont), alt, stretch)| {
                     // the alternative counting input shares a prefix of the records so multiplicities differ
                     let alt = alt.map(|(mut a, share)| {
                         let take = crate::util::idx16(share, recs.len() + 1);
@@ -189,7 +205,7 @@ impl Leg for Runs {
                         }
                         a
                     });
-                    Case { recs, cont, alt, k, bin_size, bin_count, norm, threads, mem, delim: delim.to_string() }
+                    Case { recs, cont, alt, k, bin_size, bin_count, norm, threads, mem, delim: delim.to_string(), stretch }
                 })
             })
             .boxed()
